@@ -1,5 +1,6 @@
 """C16 — numeric bounds and multiples are exact."""
 from . import common as C
+from . import numgen
 
 MANIFEST = dict(
    technique="Lean 4 proof (exactness of compareNumeric/cmpIntFloat/multipleOfInts over all of Int and all dyadic floats) + differential correspondence of the model against pkg/validate and real numeric schemas",
@@ -7,12 +8,17 @@ MANIFEST = dict(
    note="Trusted: Lean kernel; axioms propext/Classical.choice/Quot.sound only; the Go harness and comparer; Go float64 operators and math.Trunc being IEEE-754. Float MultipleOf (documented epsilon rule) is not modelled. The model is a hand transcription validated on generated cases, not for all inputs.",
    design="DESIGN.md §5 C16")
 
-MODULES = ["Gozod.Proofs.C16"]
+MODULES = ["Gozod.Proofs.C16", "Gozod.Proofs.C16Dispatch"]
 THEOREMS = [
     "Gozod.C16.c16_cmp", "Gozod.C16.c16_int_cmp", "Gozod.C16.c16_sign", "Gozod.C16.c16_float_cmp",
     "Gozod.C16.c16_nan_left", "Gozod.C16.c16_nan_right", "Gozod.C16.c16_neg_zero", "Gozod.C16.c16_zero_eq",
     "Gozod.C16.c16_int_float_cmp", "Gozod.C16.c16_multiple_int", "Gozod.C16.cmpInts_exact",
     "Gozod.C16.multipleOfInts_exact", "Gozod.C16.legacy_cmp_inexact", "Gozod.C16.legacy_multiple_eps",
+    # over the tables regenerated from the source (Gen/NumDispatch.lean)
+    "Gozod.C16D.toNum_table", "Gozod.C16D.toNum_types_known", "Gozod.C16D.compareNumeric_table", "Gozod.C16D.cmpIntFloat_table",
+    "Gozod.C16D.cmpOps_table", "Gozod.C16D.c16_cmp_table", "Gozod.C16D.sign_ops", "Gozod.C16D.check_ctors",
+    "Gozod.C16D.cmpFloats_arms", "Gozod.C16D.cmpInts_arms", "Gozod.C16D.multipleOfInts_arms", "Gozod.C16D.multipleOf_consts",
+    "Gozod.C16D.frames", "Gozod.C16D.methods_table",
 ]
 
 def key(op, impl, M, S):
@@ -34,9 +40,13 @@ def describe(op):
     return "see harness/c16.go; direct = validate.<Op>(value, bound); schema:<variant>:<ptrInput>:<Method> = gozod.<Kind>[Ptr]().<Method>(bound).Parse(value)"
 
 def run(res):
+    # translator: regenerate Gen/NumDispatch.lean from the working tree, then the proofs over it
+    gok, gdetail, gdiff = numgen.regenerate(res, "C16", "NumDispatch.lean")
+    if not gok:
+        C.tie_broken(res, "translator C16/NumDispatch", gdetail)
     ok, detail = C.prove(res, MODULES, THEOREMS)
     if not ok:
-        C.tie_broken(res, "proof Gozod.Proofs.C16", detail)
+        C.tie_broken(res, "proof Gozod.Proofs.C16 + C16Dispatch over the regenerated NumDispatch", detail + numgen.explain(gdiff))
     data, err = C.correspond(res, "C16")
     if data is None:
         C.tie_broken(res, "correspondence C16/compareNumeric", err)
